@@ -456,6 +456,59 @@ impl C05 {
 
 }
 
+impl C05 {
+	/// "affects no other transaction", the part that needs no base: whatever the answer,
+	/// a cancel (and the refresh inside it) works on the active account; records of the
+	/// wallet's other accounts are the same before and after
+	fn other_accounts_untouched(&self, run: &mut Run, step: &Step, out: &StepOut) -> Vec<Violation> {
+		let mut v = vec![];
+		if let Op::Cancel { w, .. } = &step.op {
+				if let Some((pw, pre)) = &self.pre {
+					if pw == w && run.ex.world.is_open(*w) && !out.crashed {
+						let post = run.ex.world.snap(*w);
+						if let Some(active) = pre.acct_path(&pre.active) {
+							let side = |s: &Snap| -> Vec<String> {
+								let mut v: Vec<String> = s
+									.outputs
+									.iter()
+									.filter(|o| o.root_key_id != active)
+									.map(|o| format!("out|{}|{}|{}|{:?}", o.key_id.to_hex(), o.value, o.status, o.tx_log_entry))
+									.chain(s.txs.iter().filter(|t| t.parent_key_id != active).map(|t| {
+										format!("tx|{}|{}|{:?}|{}", t.parent_key_id.to_hex(), t.id, t.tx_type, t.confirmed)
+									}))
+									.collect();
+								v.sort();
+								v
+							};
+							let (a, b) = (side(pre), side(&post));
+							if !a.is_empty() {
+								run.cov.probe("cancel_in_a_wallet_with_records_in_other_accounts");
+							}
+							if a != b {
+								let gone: Vec<&String> = a.iter().filter(|x| !b.contains(x)).collect();
+								let new: Vec<&String> = b.iter().filter(|x| !a.contains(x)).collect();
+								v.push(run.viol(
+									"affects_no_other",
+									"cancel_touched_another_account",
+									format!(
+										"wallet {}: cancel_tx under account {} ({}) changed records of other accounts: -{:?} +{:?}",
+										w,
+										pre.active,
+										if out.ok { "ok".to_owned() } else { out.err.clone().unwrap_or_default() },
+										gone,
+										new
+									),
+								));
+								return v;
+							}
+						}
+					}
+				}
+		}
+		v
+	}
+}
+
 impl Prop for C05 {
 	fn id(&self) -> &'static str {
 		"C05"
@@ -536,6 +589,10 @@ impl Prop for C05 {
 	fn after(&mut self, run: &mut Run, step: &Step, out: &StepOut) -> Vec<Violation> {
 		let mut v = vec![];
 		self.gen.feedback(run, step, out);
+		v.extend(self.other_accounts_untouched(run, step, out));
+		if !v.is_empty() {
+			return v;
+		}
 		if let Some(r) = self.exact.as_mut() {
 			if let (Op::InitSend { .. }, Some(m)) = (&step.op, out.new_msg) {
 				if r.stage == 2 {
